@@ -140,7 +140,7 @@ def gen_config(seed, tier='quick', family=None):
         cfg['model'] = 'TFIChain'  # gapped (g=1.5): infinite-system runs converge within the few sweeps we do
     if fam.startswith('dmrg') or fam in ('idmrg', 'vumps'):
         cfg.update({
-            'max_sweeps': wl.choice([3, 4, 6]),
+            'max_sweeps': wl.choice([3, 4, 6]) if wl.random() > 0.04 else 12,  # occasionally a long run
             'N_sweeps_check': wl.choice([1, 1, 2]),
             'mixer': wl.choice([None, None, True]),
             'fixed_sweeps': wl.random() < 0.6,  # convergence criteria disabled: the sweep count is fixed
@@ -167,7 +167,7 @@ def gen_config(seed, tier='quick', family=None):
         cfg.update({
             'dt': wl.choice([0.05, 0.1]),
             'N_steps': wl.choice([1, 2]),
-            'n_outer': wl.choice([3, 4, 6]),
+            'n_outer': wl.choice([3, 4, 6]) if wl.random() > 0.04 else 16,  # occasionally a long run (many checkpoints)
             'order': (wl.choice([1, 2, 4, '4_opt']) if fam in ('tebd', 'qrtebd', 'tdcorr', 'tdcorr_bk', 'spectral')
                       else (wl.choice([1, 2]) if fam == 'tdtebd' else None)),
             'compression': wl.choice(['SVD', 'variational', 'zip_up']) if fam in ('expmpo', 'tdexpmpo') else None,
